@@ -2,8 +2,10 @@ package main
 
 // Generators of the Joe families.  A scenario is built from one of a few templates (each the
 // boundary class of one of the properties: topic shapes, failure x cancellation, shutdown
-// races, cancellation instants, replayer faults, resuming with Last-Event-ID) filled in
-// randomly, plus a fully random mix.  All randomness comes from c.R.
+// races, cancellation instants, replayer faults and sequential fault histories, message shapes,
+// resuming with Last-Event-ID, resuming after expiry and the application's own GC()) filled in
+// randomly, plus a fully random mix.  In every class some messages carry no data (sprinkleBlank).
+// All randomness comes from c.R.
 
 import (
 	"strconv"
@@ -1010,9 +1012,9 @@ func (g *jgen) tplRandom(maxSubs int) *jScenario {
 
 func genJoe(c *Ctx) {
 	g := &jgen{c: c, r: c.R}
-	mult, maxSubs := 2, 4 // quick: 740 scenarios, about 6 s
+	mult, maxSubs := 2, 4 // quick: 896 scenarios, about 6 s
 	if c.Thorough {
-		mult, maxSubs = 20, 8 // thorough: 7400 scenarios, about 80 s
+		mult, maxSubs = 20, 8 // thorough: 8960 scenarios, about 100 s
 	}
 	for n := 0; n < 60*mult; n++ {
 		g.emit("joe", "topics", g.tplTopics(maxSubs))
@@ -1462,9 +1464,9 @@ func (g *jgen) tplReplayRandom(maxSubs int) *jScenario {
 
 func genJoeReplay(c *Ctx) {
 	g := &jgen{c: c, r: c.R}
-	mult, maxSubs := 2, 4 // quick: 520 scenarios, about 4 s
+	mult, maxSubs := 2, 4 // quick: 640 scenarios, about 5 s
 	if c.Thorough {
-		mult, maxSubs = 20, 8 // thorough: 5200 scenarios, about 70 s
+		mult, maxSubs = 20, 8 // thorough: 6400 scenarios, about 85 s
 	}
 	for n := 0; n < 200*mult; n++ {
 		s, _, _ := g.tplResume(maxSubs, -1)
